@@ -100,7 +100,20 @@ def _solve(i):
     res['status'] = str(r)
     if r == z3.sat:
         try:
-            res['model'] = model_dict(s.model(), ob, wt)
+            m = s.model()
+            # prefer a small counter-model (replays build real objects from it): bound every integer constant
+            ints = [d() for d in m.decls() if d.arity() == 0 and d.range() == z3.IntSort()]
+            for bound in (16, 256, 4096):
+                s.push()
+                s.set('timeout', 4000)
+                for c in ints:
+                    s.add(c >= -bound, c <= bound)
+                if s.check() == z3.sat:
+                    m = s.model()
+                    s.pop()
+                    break
+                s.pop()
+            res['model'] = model_dict(m, ob, wt)
         except Exception as err:
             res['model'] = {'__model_error__': repr(err)}
     res['ms'] = int(1000 * (time.time() - t0))
